@@ -69,7 +69,8 @@ enum Source {
 fn sources(prop: &str) -> Vec<Source> {
     match prop {
         "C04" => vec![Source::Staking, Source::Staking, Source::Staking, Source::Arith],
-        "C09" => vec![Source::Staking, Source::Hooks],
+        "C09" => vec![Source::Staking, Source::Staking, Source::Hooks, Source::Migr],
+        "C10" => vec![Source::Staking, Source::Staking, Source::Staking, Source::Migr],
         "C12" => vec![Source::Staking, Source::Treasury],
         "C13" => vec![Source::Treasury],
         "C14" => vec![Source::Staking, Source::CfgFuzz],
